@@ -42,6 +42,13 @@ func parse(str string, l ZitiQlListener, el antlr.ErrorListener, debug bool) {
 	input := antlr.NewInputStream(str)
 	lexer.SetInputStream(input)
 
+	// the lexer is pooled, so always start from a clean set of listeners
+	lexer.RemoveErrorListeners()
+	if debug {
+		lexer.AddErrorListener(antlr.ConsoleErrorListenerINSTANCE)
+	}
+	lexer.AddErrorListener(el)
+
 	p := parserPool.Get().(*ZitiQlParser)
 	defer parserPool.Put(p)
 
@@ -105,7 +112,7 @@ func (el *ErrorListener) SyntaxError(_ antlr.Recognizer, offendingSymbol interfa
 		Line:    line,
 		Column:  column,
 		Symbol:  symbol,
-		Message: fmt.Sprintf(`Unexpected symbol: "%s" at line: %d column: %d`, s.GetText(), line, column),
+		Message: fmt.Sprintf(`Unexpected symbol: "%s" at line: %d column: %d`, symbol, line, column),
 	})
 }
 
